@@ -312,7 +312,7 @@ func langCheck(prop, tier string) int {
 					run.Report(v)
 				}
 				run.Set("supplementary_race_pass", map[string]any{"parses_under_race_detector": ro.Runs, "gomaxprocs": ro.Procs,
-					"what": "the unmodified lexer and parser, free-running, built with -race: every string of <=3 alphabet symbols, every single edit of three programs, every (parser error, lexer error) pair on adjacent lines alone and below 3000 lines. Supplementary only: it can add alarms backed by a race-detector report, it never decides the property"})
+					"what": "the unmodified lexer and parser, free-running, built with -race: every string of <=3 alphabet symbols, every single edit of three programs, every (parser error, lexer error) pair on adjacent lines alone and below 3000 lines; then every input with a lexer-level error parsed by four goroutines at once and compared with what it gives alone. Supplementary only: it can add alarms backed by a race-detector report or by a concurrent parse answering differently from the same parse alone, it never decides the property"})
 			}
 		}
 		if f := os.Getenv("VERIF_C08_SCHED"); f != "" {
